@@ -48,6 +48,27 @@ def run(ctx):
         net = c26.topo_net(rng, dcline=False)
         if rng.random() < 0.15:
             net.ext_grid.at[net.ext_grid.index[0], "in_service"] = False
+        mvb_ = [int(b_) for b_ in net.bus.index[(net.bus.vn_kv == 20.) & net.bus.in_service]]
+        if rng.random() < 0.3 and mvb_:
+            # a section whose only link to the rest are closed bus-bus switches through an out-of-service coupler bus (both switch
+            # orientations): it must stay unsupplied
+            a_ = rng.choice(mvb_)
+            cpl = pp.create_bus(net, 20., in_service=False)
+            far = pp.create_bus(net, 20.)
+            pp.create_load(net, far, 0.3, 0.1)
+            for x_ in (a_, far):
+                if rng.random() < 0.7:
+                    pp.create_switch(net, cpl, x_, et="b", closed=True)
+                else:
+                    pp.create_switch(net, x_, cpl, et="b", closed=True)
+        if rng.random() < 0.3 and mvb_:
+            # an island whose only slack is an out-of-service slack generator
+            isl = pp.create_bus(net, 20.)
+            pp.create_load(net, isl, 0.2, 0.05)
+            pp.create_gen(net, isl, 0.1, vm_pu=1.0, slack=True, in_service=False)
+            if rng.random() < 0.5:
+                l_ = pp.create_line_from_parameters(net, rng.choice(mvb_), isl, 1.0, 0.2, 0.3, 10., 0.4)
+                pp.create_switch(net, isl, l_, et="l", closed=False)
         case = {"net": c26.encode_net(net), "slacks": sorted(slack_buses(net))}
         net_json = pp.to_json(net)
         try:
